@@ -15,10 +15,10 @@ RULE = ("seeded populations: 2 agent types, 3 states, >=2 agents per (type,state
         "(negative, zero, integer, float, large) + a String property; states and values change every step by a scripted rule so that "
         "states become empty at some times; all selections of agents x states x properties x aggregate types through bptk.run_scenarios "
         "in df, dict and json; every third case asks for two scenarios of the same manager (built from a live model with its own collector, different populations), "
-        "every fourth repeats the request and then simulates again after reset_scenario_cache with another script (same run specs) and asks for the same selection. distinct_nontrivial = distinct (type,state,property) cells observed at some time with "
+        "every fifth names a second agent-based manager in the same request, every fourth repeats the request and then simulates again after reset_scenario_cache with another script (same run specs) and asks for the same selection. distinct_nontrivial = distinct (type,state,property) cells observed at some time with "
         "total != min != max != mean (pairwise different).")
-ASSUMPTIONS = ["agents of one type carry the same property set (heterogeneous sets make 'mean' ambiguous)", "comparison tolerance 1e-9 relative"]
-REQUIRED = {"reruns_checked": 20, "multi_scenario_rounds": 20, "postcondition_evaluations": 500, "cells_checked": 5000, "output_cells_checked": 2000, "cells_all_different": 100}
+ASSUMPTIONS = ["where only part of the agents of a cell carry a numeric property (a String property re-declared as a number for some agents mid-run) total / min / max are judged, mean is not", "comparison tolerance 1e-9 relative"]
+REQUIRED = {"two_manager_requests": 10, "reruns_checked": 20, "multi_scenario_rounds": 20, "postcondition_evaluations": 500, "cells_checked": 5000, "output_cells_checked": 2000, "cells_all_different": 100}
 BUDGET_S = {"quick": 100, "thorough": 1200}
 STATES = ["active", "idle", "busy"]
 VALS = [-7.5, -1.0, 0.0, 0.0, 1.0, 2.5, 3.0, 10.0, 1e6, 0.1, 42.0, -0.25]
@@ -27,7 +27,7 @@ VALS = [-7.5, -1.0, 0.0, 0.0, 1.0, 2.5, 3.0, 10.0, 1e6, 0.1, 42.0, -0.25]
 def gen_cases(tier, seed):
     n = 160 if tier == "quick" else 4000
     # every third case: two scenarios of one manager (different populations); every fourth: simulated a second time
-    return [dict(seed=seed * 104729 + i, nscen=2 if i % 3 == 0 else 1, rerun=(i % 4 == 1)) for i in range(n)]
+    return [dict(seed=seed * 104729 + i, nscen=2 if i % 3 == 0 else 1, rerun=(i % 4 == 1), two_managers=(i % 5 == 2)) for i in range(n)]
 
 
 _st = {"post": 0, "fail": None, "cells": 0, "alldiff": set()}
@@ -57,9 +57,11 @@ def compare_stats(stats_t, exp):
                 return dict(kind="count", type=typ, state=state, got=None if got is None else got.get("count"), expected=cell["count"])
             for pn, vals in cell["vals"].items():
                 e = dict(total=math.fsum(vals), min=min(vals), max=max(vals), mean=math.fsum(vals) / len(vals))
+                if len(vals) != cell["count"]:
+                    del e["mean"]        # only some agents of the cell carry this number (a property re-declared for part of them): 'mean' is ambiguous there
                 g = got.get(pn)
                 _st["cells"] += 1
-                if len({round(v, 9) for v in e.values()}) == 4:
+                if len(e) == 4 and len({round(v, 9) for v in e.values()}) == 4:
                     _st["alldiff"].add((typ, state, pn))
                 for k, v in e.items():
                     if g is None or k not in g or g[k] is None or not close(g[k], v):
@@ -119,6 +121,16 @@ def make(seed, dt=None, rounds=None):
                 script["state"].setdefault(str(k), {})[str(i)] = rng.choice(sts)
             if rng.random() < 0.6:
                 script["prop"].setdefault(str(k), {})[str(i)] = {"x": rng.choice(VALS) + rng.choice([0, 0.5, 0.125]), "n": rng.randint(-20, 30)}
+    if rng.random() < 0.35:
+        # the String property of some agents is re-declared as a number in the middle of the run (and for one of them back again)
+        script["retype"] = {}
+        for i in rng.sample(ids, min(len(ids), rng.randint(1, 3))):
+            k = rng.randrange(1, max(2, nsteps - 1))
+            script["retype"].setdefault(str(k), {})[str(i)] = {"label": {"type": rng.choice(["Double", "Integer"]), "value": rng.choice([3.5, -2.0, 7.0]) if True else 0}}
+        for k in script["retype"]:
+            for i, sp_ in script["retype"][k].items():
+                if sp_["label"]["type"] == "Integer":
+                    sp_["label"]["value"] = int(sp_["label"]["value"])
     sel = dict(agents=rng.choice([["a"], ["b"], ["a", "b"]]),
                states=rng.choice([STATES, STATES[:2], ["idle"], ["busy", "active"]]),
                props=rng.choice([[], ["x"], ["n"], ["x", "n"]]),
@@ -126,13 +138,14 @@ def make(seed, dt=None, rounds=None):
     return dict(dt=dt, rounds=rounds, agents=agents, script=script, sel=sel, never_busy=never)
 
 
-def check_round(b, names, sel, label):
+def check_round(b, names, sel, label, second_manager=None):
     """One round of requests (df, dict, json) for the scenarios `names` of smAbm, judged against the population
     snapshots that each scenario's model recorded in end_round during the run the answers report on."""
     w = None
     out_cells = 0
     mgr = b.scenario_manager_factory.scenario_managers["smAbm"]
-    kw = dict(scenarios=list(names), scenario_managers=["smAbm"], agents=sel["agents"], agent_states=sel["states"])
+    targets = [("smAbm", n) for n in names] + ([(second_manager, "scB")] if second_manager else [])
+    kw = dict(scenarios=[n for (_m, n) in targets], scenario_managers=sorted(set(mg for (mg, _n) in targets)), agents=sel["agents"], agent_states=sel["states"])
     if sel["props"]:
         kw.update(agent_properties=sel["props"], agent_property_types=sel["ptypes"])
     try:
@@ -144,8 +157,8 @@ def check_round(b, names, sel, label):
         return dict(kind="output-exception:" + type(e).__name__, error=traceback.format_exc()[-500:], round=label), 0
     if _st["fail"] is not None:
         return None, 0
-    for name in names:
-        model = mgr.scenarios[name]
+    for (mgname, name) in targets:
+        model = b.scenario_manager_factory.scenario_managers[mgname].scenarios[name]
         # truth = the population the model had at the end of each step (recorded by the harness subclass in
         # end_round), NOT the list the scheduler handed to the collector
         snaps = {e[1]: recompute(e[2]) for e in model.log if e[0] == "population"}
@@ -174,7 +187,7 @@ def check_round(b, names, sel, label):
             for state in sel["states"]:
                 combos = [(p, pt) for p in sel["props"] for pt in sel["ptypes"]] or [(None, None)]
                 for (p, pt) in combos:
-                    col = "smAbm_%s_%s_%s" % (name, typ, state) + ("_%s_%s" % (p, pt) if p else "")
+                    col = "%s_%s_%s_%s" % (mgname, name, typ, state) + ("_%s_%s" % (p, pt) if p else "")
                     for t in snaps:
                         e = expect(t, typ, state, p, pt)
                         ever = any(snaps[tt].get(typ, {}).get(state) for tt in snaps)
@@ -185,14 +198,14 @@ def check_round(b, names, sel, label):
                         if g_df is None and not ever and df is not None:
                             g_df = 0.0  # a state that was never populated has no column: same as zero
                         try:
-                            node = js["smAbm"][name]["agents"][typ][state]
+                            node = js[mgname][name]["agents"][typ][state]
                             series = node["properties"][p][pt] if p else node
                             g_js = series.get(repr(float(t)), series.get(str(t)))
                             g_js = None if g_js is None else float(g_js)
                         except KeyError:
                             g_js = 0.0 if not ever else None
                         try:
-                            node = dd["smAbm"][name]["agents"][typ][state]
+                            node = dd[mgname][name]["agents"][typ][state]
                             series = node["properties"][p][pt] if p else node
                             g_dd = float(series[t])
                         except KeyError:
@@ -227,7 +240,16 @@ def run_case(case):
         for n, v in zip(names, variants):
             mgr.scenarios[n].script = v["script"]
         sel = sc["sel"]
-        w, oc = check_round(b, names, sel, "first run")
+        second = None
+        if case.get("two_managers"):
+            # a second agent-based manager named in the same request
+            vB = make(case["seed"] * 977 + 5, dt=sc["dt"], rounds=sc["rounds"])
+            baseB = abm.LogModel(name="abmB", scheduler=abm.SimultaneousScheduler(), data_collector=abm.LogCollector())
+            b.register_scenario_manager({"smAbm2": {"type": "abm", "model": baseB, "scenarios": {"scB": {"runspecs": {"starttime": 1, "stoptime": sc["rounds"], "dt": float(sc["dt"])}, "properties": {}, "agents": vB["agents"]}}}})
+            b.scenario_manager_factory.scenario_managers["smAbm2"].scenarios["scB"].script = vB["script"]
+            second = "smAbm2"
+            counters["two_manager_requests"] = 1
+        w, oc = check_round(b, names, sel, "first run", second_manager=second)
         out_cells += oc
         if w is None and _st["fail"] is None and case.get("rerun"):
             # asked again (no new simulation), then simulated again on the population as it stands: other script, same run specs
